@@ -40,9 +40,13 @@ Emit == PrintT(<<"CASE", ToJson([family |-> Family, n |-> n,
                                  edges |-> [i \in 1..Cardinality(g) |-> [a |-> EdgeList[i][1], b |-> EdgeList[i][2], w |-> Wrapper(i)]],
                                  kinds |-> kinds, compact |-> compact])>>)
 
-\* alias family: t[i] in 0..n
-InitAlias == /\ n \in Ns /\ v = 1 /\ mixed = FALSE /\ kinds = "struct" /\ compact = FALSE /\ last = 0
+\* alias family: t[i] in 0..n; every alias names its target directly or through an anonymous type (AliasWrappers:
+\* 1 direct, 3 Sequence<T>, 4 Dictionary<int32, T>, 6 Result<T, bool>, 7 Result<Sequence<bool>, T?>) - a loop through
+\* anonymous types is a loop ('typealias A = Sequence<A>')
+AliasWrappers == <<1, 3, 4, 6, 7>>
+AliasWrapper(i) == IF mixed THEN AliasWrappers[((v + i - 2) % 5) + 1] ELSE AliasWrappers[v]
+InitAlias == /\ n \in Ns /\ v \in Variants /\ mixed \in Mixed /\ kinds = "struct" /\ compact = FALSE /\ last = 0
              /\ g \in [1..n -> 0..n]
-EmitAlias == PrintT(<<"CASE", ToJson([family |-> "alias", n |-> n, target |-> g])>>)
+EmitAlias == PrintT(<<"CASE", ToJson([family |-> "alias", n |-> n, target |-> g, w |-> [i \in 1..n |-> AliasWrapper(i)]])>>)
 NextNone == UNCHANGED vars
 ====================================================================================================
